@@ -118,7 +118,12 @@ def classify(sk, case, res):
             if swap < i < extend:
                 return KEY_EMPTY_LIST
             c = next((j for j in calls if j > i), None)
-            if i < swap and c is not None and c > swap and (add_last is None or c > add_last or c > extend):
+            if c is not None:
+                # the delivery itself: the buffer's append line when the destination is the (gated) buffer
+                d = next((j for j in range(c + 1, len(res.trace)) if res.trace[j].tid == t), None)
+                if d is not None and res.trace[d].func == "__call__" and res.trace[d].line == L.get("buffer_append"):
+                    c = d
+            if i < swap and c is not None and c > swap:
                 return KEY_OLD_LIST
     return None
 
